@@ -91,6 +91,10 @@ def make_workload(rng, n_threads, max_tests, runlevel=True):
                 test["tags_in"] = [["g%d" % t], ["l0"]]  # the test sets a tag the run level may have
             elif r < 0.78:
                 test["tags_in"] = [[""], []]             # a tag that is the empty string is a tag
+            elif r < 0.86:
+                # tags are compared as given: white space is part of a tag (' h' is not the run-level 'h')
+                test["tags_in"] = rng.choice([[[" h", "h "], []], [["l%d\n" % uid, "\u00a0"], []], [[], [" h"]],
+                                              [["g%d " % t], ["h\t"]]])
             if "tags_in" in test and rng.random() < 0.3:
                 # ... and then takes back what it just did (or re-adds what it just removed)
                 test["tags_in2"] = [list(test["tags_in"][1]), list(test["tags_in"][0])]
